@@ -1,7 +1,7 @@
 # ---------------------------------------------------------------- C04 escaping per target (shared with C08)
 PROPS["C04"] = {
     "level": "proof",
-    "explanation": "(thorough tier additionally runs the slower bounded string units; the units that failed on the pinned tree -- genuine defects, since repaired, see known_findings.txt -- are in the quick tier.)  Each per-format character escaper (mmd_print_char_html/_latex/_opendocument, one iteration of mmd_print_source_opml/_itmz) is run, unmodified, on ALL 256 bytes x all flag values with its output captured in the ghost sink (the DString specification, C19) and judged by reference decoders written from the property text (esc_spec.h): XML character data with & < > \" only in escaped form and decoding back to the input character; LaTeX text in which \\ { } $ % & # _ ^ ~ never occur bare and which decodes back to the input character.  The string printers are proved to feed every input byte to the character escaper exactly once, in order (loop contracts, strings of any length); for OPML/iThoughts the decoder is evaluated on every append of the real loop body (any length).  Bounded end-to-end string units (<= 2/3 symbolic bytes), the leaf-token arms of the three tree writers (one-token trees, concrete type, lexemes from lexer.re) and the raw exporters are reported separately as bounded.",
+    "explanation": "(thorough tier additionally runs the slower bounded string units; the units that failed on the pinned tree -- genuine defects, since repaired, see known_findings.txt -- are in the quick tier.)  Each per-format character escaper (mmd_print_char_html/_latex/_opendocument, one iteration of mmd_print_source_opml/_itmz) is run, unmodified, on ALL 256 bytes x all flag values with its output captured in the ghost sink (the DString specification, C19) and judged by reference decoders written from the property text (esc_spec.h): XML character data with & < > \" only in escaped form and decoding back to the input character; LaTeX text in which \\ { } $ % & # _ ^ ~ never occur bare and which decodes back to the input character.  The string printers are proved to feed every input byte to the character escaper exactly once, in order (loop contracts, strings of any length); for OPML/iThoughts the decoder is evaluated on every append of the real loop body (any length).  Bounded end-to-end string units (<= 2/3 symbolic bytes), the leaf-token arms of the three tree writers (one-token trees, concrete type, lexemes from lexer.re) and the raw exporters are reported separately as bounded.  Call-trace units (str_calls_*, bounded to 5 bytes, independent of the loop structure) state that the string printers pass every byte, in order, to the per-character escaper and call no raw output primitive; taint units (shared with C08) state that source-derived strings reach link/image attributes only through the escaper.",
     "slice": "mmd_print_char_html, mmd_print_char_latex, mmd_print_char_opendocument (per character: proof); mmd_print_source_opml, mmd_print_source_itmz (per character and any length: proof); mmd_print_string_html/_latex/_opendocument, mmd_print_label_latex (iteration, any length: proof; content end to end: bounded); leaf arms of mmd_export_token_html/_latex/_opendocument and mmd_export_token_html_raw/_opendocument_raw/_math on one-token trees (bounded)",
     "not_reached": "'all visible text, none lost or repeated, in source order' and 'every element opened is closed' over a whole token tree (recursive traversal of an unbounded tree through the 2000-line switches of the writers); the lexer's assignment of reserved characters to their own token types (re2c, outside CBMC's reach)",
     "trusted_base": ["cbmc/goto-cc/goto-instrument 6.11.0 (MiniSat2)", "lib/ds_sink.c: the DString specification as executable ghost code (refined by d_string.c: property C19)", "C04/esc_spec.h reference decoders (XML 1.0 character data; TeX tokeniser + symbol-command table)"],
